@@ -160,7 +160,10 @@ def run(prog, chk):
     # ---- R07.4 subscripts ------------------------------------------------------------------------
     nsub = 0
     from ..kcanon import Canon
-    for f in [x for x in R.ev_methods() if x.body]:
+    ltabs = _length_tables(prog)
+    local_fns = [x for x in prog.functions if x.body and x.kind == 'function' and not x.cls and x.file.endswith('runtime_evaluator.cpp')]
+    deferred = set()
+    for f in [x for x in R.ev_methods() if x.body] + local_fns:
         if not any(n['k'] == 'index' and SX.is_node(SX.strip(n.get('base'))) and SX.strip(n['base']).get('k') == 'member' and SX.strip(n['base'])['name'].endswith('Array')
                    for n in SX.walk(f.body, into_lambdas=False)):
             continue
@@ -216,8 +219,63 @@ def run(prog, chk):
                                         hi = True
                         if not hi:
                             hi = _bound_by_cases(f, g, node, bound, btxt)
+            if lo and not hi and node is not None and base.get('k') == 'member':
+                # the length comes from a per-kind length function: `if (i < 0 || i >= *primitiveArrayLength(arr)) throw` and the site
+                # sits in `case K:` of `switch (arr.type)` where that function measures this very field
+                hi = _upper_by_length_fn(prog, canon, g, node, itxt, SX.show(canon.expand(_peel(base.get('base')))), base['name'], ltabs)
+            if not (lo and hi) and f in local_fns:
+                deferred.add(id(n))          # a helper's subscript by its parameters: decided at the call sites below
+                nsub -= 1
+                continue
             chk.ob('R07.4', f, n.get('ln', f.ln), lo and hi, '%s[%s] needs the dominating test %s < 0 || %s >= %s.size() (found lower=%s upper=%s)' % (btxt[-30:], itxt, itxt, itxt, btxt[-30:], lo, hi),
                    key='subscript:%s:%s[%s]' % (f.short, base['name'], itxt))
+    # subscripts inside file-local helper functions (`elementAt(coll, index)`): the obligation is transferred to every call site —
+    # there the index argument is known non-negative and below the per-kind length of the array argument
+    from ..kernels import enclosing_stmts
+    for h in prog.functions:
+        if not h.body or h.kind != 'function' or h.cls or not h.file.endswith('runtime_evaluator.cpp'):
+            continue
+        pids = {p_['id']: k_ for k_, p_ in enumerate(h.params) if p_.get('id')}
+        for n in SX.walk(h.body, into_lambdas=False):
+            if n['k'] != 'index' or 'callee' not in n or not n.get('bt', '').replace('const ', '').startswith('std::vector<'):
+                continue
+            if id(n) not in deferred:
+                continue
+            base = SX.strip(n['base'])
+            idx = _peel(n['i'])
+            nsub += 1
+            arr = _peel(base.get('base'))
+            if not (SX.is_node(arr) and arr.get('k') == 'ref' and arr.get('id') in pids and SX.is_node(idx) and idx.get('k') == 'ref' and idx.get('id') in pids):
+                chk.vacuous.append('%s: subscript %s in a helper is not of the form <array parameter>.<field>[<index parameter>]' % (h.short, SX.show(n)[:40]))
+                continue
+            kind = None
+            for st in enclosing_stmts(h.body, n):
+                if st['k'] == 'switch' and SX.is_node(_peel(st.get('c'))) and _peel(st['c']).get('k') == 'member' and _peel(st['c']).get('name') == 'type' \
+                        and _peel(_peel(st['c']).get('base')).get('id') == arr['id']:
+                    kind = 'sw'
+                if st['k'] == 'case' and kind == 'sw':
+                    kind = SX.show(SX.strip(st.get('v')))
+            sites = [(f2, c) for f2 in prog.functions if f2.body and f2.file.endswith('runtime_evaluator.cpp') for c in SX.walk(f2.body, into_lambdas=False)
+                     if c['k'] == 'call' and c.get('callee') == h.name]
+            if not sites or kind in (None, 'sw'):
+                chk.vacuous.append('%s: subscript %s is not under a case of a switch over the array parameter\'s kind, or the helper is never called' % (h.short, SX.show(n)[:40]))
+                continue
+            for f2, c in sites:
+                g2 = prog.cfg(f2)
+                cn2 = Canon(prog, f2)
+                node2 = _node_containing(g2, c)
+                a_arr, a_idx = SX.real_args(c)[pids[arr['id']]], SX.real_args(c)[pids[idx['id']]]
+                jt = SX.show(_peel(a_idx))
+                lo2 = hi2 = False
+                if node2 is not None:
+                    for ce, pol, _ in g2.guards(node2):
+                        c0 = cmp_with_const(ce, jt)
+                        if c0 and ((c0 == ('<', 0) and not pol) or (c0 == ('>=', 0) and pol)):
+                            lo2 = True
+                    hi2 = _upper_by_length_fn(prog, cn2, g2, node2, jt, SX.show(cn2.expand(_peel(a_arr))), base['name'], ltabs, kind=kind)
+                chk.ob('R07.4', f2, c.get('ln', f2.ln), lo2 and hi2,
+                       '%s(…) subscripts %s.%s[%s] for kind %s: the call needs the dominating test %s < 0 || %s >= <length of that array> (found lower=%s upper=%s)' % (
+                           h.short, SX.show(_peel(a_arr))[:20], base['name'], jt, kind, jt, jt, lo2, hi2), key='subscript:%s:%s:%s' % (f2.short, h.short, base['name']))
     chk.count('computed subscripts of value arrays', nsub, 12)
     # / by zero test (floating division in the `/` branch)
     ev_top = ev
@@ -280,6 +338,90 @@ def _peel(e):
     while SX.is_node(e) and e['k'] == 'cast':
         e = SX.strip(e['e'])
     return e
+
+
+def _length_tables(prog):
+    """per-kind length functions: `switch (v.type) { case K: return v.F.size(); … default: return nullopt/0; }` over the single parameter v
+    → {function name: {K (enumerator text): F}}"""
+    out = {}
+    for h in prog.functions:
+        if not h.body or h.kind == 'lambda' or not h.file.endswith('runtime_evaluator.cpp') or len(h.params) != 1:
+            continue
+        st = h.body.get('body') if h.body.get('k') == 'block' else None
+        if not st or st[0].get('k') != 'switch':
+            continue
+        sw = st[0]
+        c = _peel(sw.get('c'))
+        pid = h.params[0].get('id')
+        if not (SX.is_node(c) and c.get('k') == 'member' and c.get('name') == 'type' and _peel(c.get('base')).get('id') == pid):
+            continue
+        tab, pending, ok = {}, [], True
+
+        def walk(s):
+            nonlocal ok, pending
+            if not SX.is_node(s):
+                return
+            if s['k'] == 'block':
+                for x in s['body']:
+                    walk(x)
+            elif s['k'] == 'case':
+                pending.append(SX.show(SX.strip(s.get('v'))))
+                walk(s.get('s'))
+            elif s['k'] == 'default':
+                pending = []
+                walk(s.get('s'))
+            elif s['k'] == 'return':
+                e = _peel(s.get('e'))
+                while SX.is_node(e) and e.get('k') == 'construct' and len(SX.real_args(e)) == 1:
+                    e = _peel(SX.real_args(e)[0])
+                if SX.is_node(e) and e.get('k') == 'mcall' and SX.short(e.get('callee', '')) == 'size' and SX.is_node(_peel(e.get('obj'))) and _peel(e['obj']).get('k') == 'member' \
+                        and _peel(_peel(e['obj']).get('base')).get('id') == pid:
+                    for k_ in pending:
+                        tab[k_] = _peel(e['obj'])['name']
+                pending = []
+            elif s['k'] in ('break', 'null'):
+                pass
+            else:
+                ok = False
+        walk(sw.get('body'))
+        if ok and len(tab) >= 2:
+            out[h.name] = tab
+    return out
+
+
+def _upper_by_length_fn(prog, canon, g, node, idx_txt, arr_txt, field, tables, kind=None):
+    """a dominating guard establishes idx < H(arr) for a length function H, and the subscripted field is the one H measures for the
+    kind selected by the dominating `case` of a `switch (arr.type)` (or for `kind` when given: the case inside a helper)"""
+    if kind is None:
+        for d in g.dominators(node):
+            if d.kind == 'case' and d.label not in (None, 'default'):
+                sws = [p for p in g.nodes if p.kind == 'switch' and g.dominates(p, d)]
+                for sw in sws[-1:]:
+                    c = _peel(sw.e.get('c')) if SX.is_node(sw.e) else None
+                    if SX.is_node(c) and c.get('k') == 'member' and c.get('name') == 'type' and SX.show(canon.expand(_peel(c.get('base')))) == arr_txt:
+                        kind = SX.show(SX.strip(d.e.get('v'))) if SX.is_node(d.e) else str(d.label)
+    if kind is None:
+        return False
+    for ce, pol, _ in g.guards(node):
+        cp = SX.cmp_parts(ce)
+        if not cp:
+            continue
+        op = cp[0] if pol else {'<': '>=', '>=': '<', '>': '<=', '<=': '>'}.get(cp[0], cp[0])
+        l, r = _peel(cp[1]), _peel(cp[2])
+        if op == '>' :
+            l, r, op = r, l, '<'
+        if op != '<' or SX.show(l) != idx_txt:
+            continue
+        x = _peel(canon.expand(r))
+        # *opt / opt.value() of a local optional holding the length
+        while SX.is_node(x) and ((x.get('k') in ('opcall', 'un') and x.get('op') == '*') or (x.get('k') == 'mcall' and SX.short(x.get('callee', '')) == 'value')):
+            x = _peel(canon.expand(_peel(x['args'][0] if x.get('k') == 'opcall' else (x.get('e') if x.get('k') == 'un' else x.get('obj')))))
+        if SX.is_node(x) and x.get('k') == 'ref' and x.get('id') in canon.vars and x['id'] not in canon.written and SX.is_node(canon.vars[x['id']].get('init')):
+            x = _peel(canon.vars[x['id']]['init'])       # the local that holds the length (`auto length = lengthOf(arr);`, never reassigned)
+        if SX.is_node(x) and x.get('k') == 'call' and x.get('callee') in tables and len(SX.real_args(x)) == 1:
+            if SX.show(canon.expand(_peel(SX.real_args(x)[0]))) == arr_txt and tables[x['callee']].get(kind) == field:
+                return True
+    return False
 
 
 def _induction(f, node, idx):
